@@ -26,13 +26,24 @@ def definify(rng, root, p=0.5):
     defs = []
     serial = [0]
 
-    def rec(node):
+    local = rng.random() < 0.35
+
+    def rec(node, depth=0):
+        out = []
         for it in node["items"]:
+            out.append(it)
             if it[0] == "k" and "$" not in it[2] and it[2] != "" \
                     and rng.random() < p:
                 serial[0] += 1
                 name = "Def%d" % serial[0]
-                defs.append("%%define %s %s" % (name, it[2]))
+                d = "%%define %s %s" % (name, it[2])
+                if local and depth > 0 and rng.random() < 0.7:
+                    # the definition stands inside the section, right
+                    # before its use (a definition may stand anywhere)
+                    out.insert(len(out) - 1, ["raw", d])
+                    count[0] += 1
+                else:
+                    defs.append(d)
                 form = rng.random()
                 it[2] = ("$" + name) if form < 0.5 else "${%s}" % name
             elif it[0] == "k" and it[2] == "" and rng.random() < p:
@@ -43,7 +54,9 @@ def definify(rng, root, p=0.5):
                 it[2] = ("$" + name) if rng.random() < 0.5 \
                     else "${%s}" % name
             elif it[0] == "s":
-                rec(it[1])
+                rec(it[1], depth + 1)
+        node["items"][:] = out
+    count = [0]
     rec(root)
     if rng.random() < 0.15:
         # a value-less definition nobody refers to, now and then defined
@@ -64,7 +77,7 @@ def definify(rng, root, p=0.5):
         defs.append(("%%define %s %s" % (parts[1], parts[2] if same
                                          else parts[2] + "x")).rstrip())
     root["items"][0:0] = [["raw", d] for d in defs]
-    return len(defs)
+    return len(defs) + count[0]
 
 
 def _swapcase(rng, s):
